@@ -10,7 +10,9 @@ Lemma single_parse_int n l w idx s :
   mem_s (n ++ suffix idx)%string readonly_names = false ->
   single atttype readonly_names scalround None n (T l (Some w)) None idx s =
   Ok {| w_off := (w_off s + w)%nat; w_pay := w_pay s;
-        w_attrs := upsert (n ++ suffix idx) (PInt (int_dec (l =? lI)%N (slice (w_pay s) (w_off s) w))) (w_attrs s) |}.
+        w_attrs := upsert (n ++ suffix idx) (PInt (int_dec (l =? lI)%N (slice (w_pay s) (w_off s) w))) (w_attrs s);
+        w_trace := {| fr_base := n; fr_idx := idx; fr_off := w_off s; fr_size := w; fr_kind := FField (T l (Some w)) None;
+                      fr_val := PInt (int_dec (l =? lI)%N (slice (w_pay s) (w_off s) w)) |} :: w_trace s |}.
 Proof.
   intros Hl Hhp Hro. unfold single. cbn [attsiz_nat bind].
   rewrite (b2v_int l w _ Hl). cbn [bind]. rewrite Hhp. unfold set_attr. rewrite Hro. reflexivity.
